@@ -13,19 +13,33 @@ def encOf (s : String) : Option Enc :=
   if s = "gzip" then some .gzip else if s = "deflate" then some .deflate
   else if s = "zstd" then some .zstd else none
 
-def clsName : Cls → String
-  | .ok => "ok" | .user => "user" | .tooLargeEnc => "tooLargeEnc" | .over4G => "over4G" | .encode => "encode"
-  | .badFlag => "badFlag" | .noEncoding => "noEncoding" | .tooLargeDec => "tooLargeDec"
-  | .decompress => "decompress" | .codec => "codec" | .eof => "eof" | .http => "http"
+/-- Who produced the status, as the harness can tell without reading tonic's message texts
+(`cls_of` in harness/src/framing.rs): the scripted doubles (`user`), the raw decoder double
+(`codec`; the prost decoder's error is built by tonic), or tonic itself (`t`).  The code is what
+tells tonic's own statuses apart. -/
+def clsName (prost : Bool) : Cls → String
+  | .ok => "ok" | .user => "user"
+  | .codec => if prost then "t" else "codec"
+  | .tooLargeEnc | .over4G | .encode | .badFlag | .noEncoding | .tooLargeDec | .decompress | .eof | .http => "t"
 
-def stTok (p : String) (st : St) : String := s!"{p}{st.code}:{clsName st.cls}"
+def stTok (prost : Bool) (p : String) (st : St) : String := s!"{p}{st.code}:{clsName prost st.cls}"
 
 /-- compression table from the case: (raw or `none` when the reference decompressor fails, compressed) -/
 abbrev ZTab := List (Option Bytes × Bytes)
 
-def tableCodec (tab : ZTab) (prost : Bool := false) : Codec Bytes where
+/-- prost's own verdict (prost called directly by the harness, not through tonic) on every frame
+payload of a `pdec` case: the canonical re-encoding of the message it decodes to, or `none` -/
+abbrev PTab := List (Bytes × Option Bytes)
+
+/-- the message decoder of a case: the raw double refuses a leading 0xFF; the prost codec is the
+case's table (a payload the table does not list is refused) -/
+def deOf (prost : Bool) (ptab : PTab) (b : Bytes) : Option Bytes :=
+  if prost then (match ptab.find? (fun e => e.1 == b) with | some e => e.2 | none => none)
+  else if b.head? = some 255 then none else some b
+
+def tableCodec (tab : ZTab) (prost : Bool := false) (ptab : PTab := []) : Codec Bytes where
   ser := id
-  de := fun b => if !prost && b.head? = some 255 then none else some b
+  de := fun b => if prost && ptab.isEmpty then some b else deOf prost ptab b
   deErr := 13
   cz := fun _ raw => match tab.find? (fun e => e.1 == some raw) with
     | some e => e.2
@@ -41,6 +55,19 @@ def parseZ : Nat → List String → Option (ZTab × List String)
     | some raw, some comp, some (t, rest') => some ((raw, comp) :: t, rest')
     | _, _, _ => none
   | _, _ => none
+
+def parseP : Nat → List String → Option (PTab × List String)
+  | 0, rest => some ([], rest)
+  | k + 1, p :: c :: rest =>
+    match unhex p, (if c = "F" then some none else (unhex c).map some), parseP k rest with
+    | some pl, some canon, some (t, rest') => some ((pl, canon) :: t, rest')
+    | _, _, _ => none
+  | _, _ => none
+
+/-- the optional `P j …` section between the `Z` table and `EV` -/
+def parsePSection : List String → Option (PTab × List String)
+  | "P" :: j :: rest => (nat? j).bind (fun j => parseP j rest)
+  | rest => some ([], rest)
 
 /-- hex without the leading `x` marker, as used inside event tokens -/
 def unhexBare (s : String) : Option Bytes := if s = "." then some [] else Hex.decodeChars s.toList
@@ -81,22 +108,23 @@ def parseEncCase : List String → Option EncCase
     | _, _, _, _, _ => none
   | _ => none
 
-def frameTok : FrameOut → String
+def frameTok (prost : Bool) : FrameOut → String
   | .data b => "d" ++ hexBare b
-  | .trailers st => stTok "t" st
-  | .err st => stTok "e" st
+  | .trailers st => stTok prost "t" st
+  | .err st => stTok prost "e" st
   | .pending => "p"
   | .none => "n"
   | .panic => "panic"
 
 def runEnc (c : EncCase) : String :=
-  String.intercalate " " ((Enc.run (tableCodec c.tab c.prost) c.cfg c.npolls Enc.init c.evs).map frameTok)
+  String.intercalate " " ((Enc.run (tableCodec c.tab c.prost) c.cfg c.npolls Enc.init c.evs).map (frameTok c.prost))
 
 structure DecCase where
   prost : Bool := false
   cfg : DecCfg
   npolls : Nat
   tab : ZTab
+  ptab : PTab := []
   evs : List BodyEv
 
 def parseBodyEv (s : String) : Option BodyEv :=
@@ -119,28 +147,28 @@ def parseDecCase : List String → Option DecCase
     if kind ≠ "dec" ∧ kind ≠ "pdec" then none else
     match parseDir dir, optNat? mx, nat? np, nat? k with
     | some dir, some mx, some np, some k =>
-      match parseZ k rest with
-      | some (tab, "EV" :: evs) =>
+      match (parseZ k rest).bind (fun (tab, r) => (parsePSection r).map (fun (ptab, r') => (tab, ptab, r'))) with
+      | some (tab, ptab, "EV" :: evs) =>
         match evs.mapM parseBodyEv with
         | some evs =>
           -- `Streaming::new_empty` passes no encoding and no limit
           let (e, m) := match dir with | .empty => (none, none) | _ => (encOf enc, mx)
-          some { prost := kind = "pdec", cfg := { enc := e, maxSize := m, dir := dir }, npolls := np, tab := tab, evs := evs }
+          some { prost := kind = "pdec", cfg := { enc := e, maxSize := m, dir := dir }, npolls := np, tab := tab, ptab := ptab, evs := evs }
         | none => none
       | _ => none
     | _, _, _, _ => none
   | _ => none
 
-def itemTok : Item Bytes → String
+def itemTok (prost : Bool) : Item Bytes → String
   | .msg m => "m" ++ hexBare m
-  | .err st => stTok "e" st
+  | .err st => stTok prost "e" st
   | .none => "n"
   | .pending => "p"
 
 /-- the trailing `a0` token: the model never reserves memory for a refused frame, so the largest
 allocation stays within the harness's budget (`a1` = it did not) -/
 def runDec (c : DecCase) : String :=
-  String.intercalate " " ((Dec.run (tableCodec c.tab c.prost) c.cfg c.npolls Dec.init c.evs).map itemTok ++ ["a0"])
+  String.intercalate " " ((Dec.run (tableCodec c.tab c.prost c.ptab) c.cfg c.npolls Dec.init c.evs).map (itemTok c.prost) ++ ["a0"])
 
 def model (case : List String) : Option String :=
   match case with
@@ -175,6 +203,18 @@ def payloadMsg (tab : ZTab) (fp : UInt8 × Bytes) : Option Bytes :=
   if fp.1 = 0 then some fp.2
   else if fp.1 = 1 then (match tab.find? (fun e => e.2 == fp.2) with | some e => e.1 | none => none)
   else none
+
+/-- The reference receiver of a decoder case, for `Spec.Framing.batch` / `held`: built from the
+case's tables (reference decompressor, prost called directly / the raw double's rule) and the
+configured limit — nothing of the model. -/
+def recvOfCase (c : DecCase) : Spec.Framing.Recv Bytes where
+  limit := c.cfg.maxSize.getD (4 * 1024 * 1024)
+  hasEnc := c.cfg.enc.isSome
+  dz := fun comp => match c.tab.find? (fun e => e.2 == comp) with | some e => e.1 | none => none
+  de := fun b => if c.prost && c.ptab.isEmpty then some b else deOf c.prost c.ptab b
+
+/-- the case's events are data chunks and `Pending`s only (the body ends by itself) -/
+def plainEvs (evs : List BodyEv) : Bool := evs.all (fun | .data _ => true | .pending => true | _ => false)
 
 /-- magic numbers of the three encodings -/
 def magicOk (e : Enc) (p : Bytes) : Bool :=
